@@ -36,6 +36,9 @@ type SchedOpts struct {
 	Teardown func(x *Exec)
 	// QuietObjs: operations on these objects are not scheduling decisions (read-mostly
 	// configuration locks); the goroutine is released immediately.
+	// Focus: only sync operations issued by functions of these packages (qualified-name
+	// prefixes) are scheduling decisions; others proceed unless they would block.
+	Focus []string
 	// OnQuiescent is called by the controller at every quiescent point (all goroutines
 	// parked or durably blocked), before the next decision: invariant oracles go here.
 	OnQuiescent   func(x *Exec)
@@ -252,6 +255,9 @@ func runOne(t *testing.T, o *SchedOpts, prefix []int, trace bool) *Exec {
 		defer rt.RaceEnable()
 		x.start = time.Now()
 		x.s = rt.Activate()
+		if len(o.Focus) > 0 {
+			x.s.SetFocus(o.Focus)
+		}
 		defer rt.Deactivate()
 		o.Body(x)
 		x.control()
